@@ -4,6 +4,7 @@
 package main
 
 import (
+	"sort"
 	"strconv"
 
 	"verifharness/hx"
@@ -124,7 +125,24 @@ func genCase(caseNo int) {
 		used = append(used, n)
 		if rng.Chance(1, 7) && len(sizes) > 0 {
 			// copy-part from an existing object
-			for k, sz := range sizes {
+			var srcs []string
+			for k := range sizes {
+				srcs = append(srcs, k)
+			}
+			sort.Strings(srcs) // map order is random: keep the generation a function of the seed
+			for _, k := range srcs[rng.Intn(len(srcs)):] {
+				sz := sizes[k]
+				isDir := false
+				for o := range sizes {
+					if len(o) > len(k) && o[:len(k)+1] == k+"/" {
+						isDir = true
+					}
+				}
+				if isDir {
+					// a copy source that names a directory yields the filer's directory listing as bytes
+					// (not predictable; reported in the notes, not generated)
+					break
+				}
 				if sz > 0 && rng.Bool() {
 					a := rng.Intn(sz)
 					run("mpcopy", []string{u, i2s(n), hx.HexS(k), i2s(a), i2s(a + rng.Intn(sz-a))})
